@@ -143,12 +143,18 @@ func runHostile(c *fw.Ctx, e *env) {
 	idx := 0
 	for _, h := range hostileList() {
 		for _, n := range sizes {
-			if (h.fn == "gsub" || h.fn == "gmatch") && n > 1000 {
-				// gopher-lua's gsub re-copies the whole buffer per match (quadratic): keep these moderate
+			if h.fn == "gmatch" && n > 1000 {
 				if n > 60000 {
 					continue
 				}
 				n = 20000
+			}
+			if h.fn == "gsub" && n > 60000 {
+				// a million matches: assembled in one pass this takes about a second.
+				// (The pinned tree re-copied the whole subject for every match - many
+				// minutes here, hours at a few megabytes: a hang for every practical purpose.)
+				n = 1000000
+				c.HangLimit(90)
 			}
 			idx++
 			if !c.Mine(idx) {
@@ -168,6 +174,7 @@ func runHostile(c *fw.Ctx, e *env) {
 				c.Count("hostile_match_agreed", 1)
 			}
 			c.End(!r.budget, fmt.Sprintf("hostile/%s/%s/%d", h.fn, h.pat, n))
+			c.HangLimit(0)
 		}
 	}
 	for _, k := range catastrophic {
@@ -251,6 +258,54 @@ func runDeepPattern(c *fw.Ctx, e *env, pat string, hc *Case) {
 		case o.Err != nil:
 			c.Count("deep_capture_lua_errors", 1)
 		}
+	}
+}
+
+// numSubjects: a number as the subject is converted to its text; the results are
+// strings whatever is (not) replaced. Expected values by the manual's rules.
+var numSubjects = []struct {
+	fn   string
+	args []lua.LValue
+	want string
+}{
+	{"gsub", []lua.LValue{lua.LNumber(123), lua.LString("x"), lua.LString("y")}, `"123",0`},
+	{"gsub", []lua.LValue{lua.LNumber(123), lua.LString("2"), lua.LString("y")}, `"1y3",1`},
+	{"gsub", []lua.LValue{lua.LNumber(12321), lua.LString("2"), lua.LString(""), lua.LNumber(0)}, `"12321",0`},
+	{"gsub", []lua.LValue{lua.LNumber(-5), lua.LString("%-"), lua.LString("+")}, `"+5",1`},
+	{"gsub", []lua.LValue{lua.LNumber(7), lua.LString("^$"), lua.LString("e")}, `"7",0`},
+	{"find", []lua.LValue{lua.LNumber(12345), lua.LString("3")}, `3,3`},
+	{"match", []lua.LValue{lua.LNumber(2024), lua.LString("%d%d$")}, `"24"`},
+	{"match", []lua.LValue{lua.LNumber(2024), lua.LString("^%d+$")}, `"2024"`},
+}
+
+func runNumberSubject(c *fw.Ctx, e *env, cs *Case) {
+	k := numSubjects[cs.Variant%len(numSubjects)]
+	fn := map[string]lua.LValue{"gsub": e.gsub, "find": e.find, "match": e.match}[k.fn]
+	res, o := gl.Call(e.L, fn, k.args...)
+	got := ""
+	switch {
+	case o.GoPanic != nil:
+		got = "Go panic: " + fw.Short(o.PanicStr, 200)
+	case o.Err != nil:
+		got = "error: " + fw.Short(o.Err.Error(), 200)
+	default:
+		got = gl.CanonList(res, gl.NewIDMap())
+	}
+	if got != k.want {
+		c.Violation(fmt.Sprintf("string.%s with the number %v as subject: got %s, the text of the number gives %s", k.fn, k.args[0], got, k.want), cs)
+	}
+}
+
+func runNumberSubjects(c *fw.Ctx, e *env) {
+	if c.Shard != 3%c.NShards {
+		return
+	}
+	for i := range numSubjects {
+		cs := &Case{Fn: "numsubject", Variant: i}
+		c.Begin(cs)
+		runNumberSubject(c, e, cs)
+		c.Count("number_subject_calls", 1)
+		c.End(true, fmt.Sprintf("numsubject/%d", i))
 	}
 }
 
